@@ -16,6 +16,10 @@ pub open spec fn payload_gate(dst: GUID, payload: Option<Bytes>) -> bool {
         || crypto_plain_payload(p@))
 }
 
+pub open spec fn plugins_are_ambient(p: Option<&SecurityPluginsHandle>) -> bool {
+    match p { None => the_plugins() is None, Some(h) => the_plugins() == Some(*h) }
+}
+
 // ---- rtps/reader.rs: unverified endpoint (behaviour after delivery is out of scope) ----------
 #[verifier::external_body] pub struct Reader { p: u8 }
 impl Reader {
@@ -67,7 +71,11 @@ pub assume_specification<T, E, F: FnOnce(E) -> T>[ Result::<T, E>::unwrap_or_els
 
 @@extract struct src/rtps/message_receiver.rs MessageReceiverState keep=source_guid_prefix
 @@extract enum src/rtps/message_receiver.rs SecureReceiverState
-@@extract struct src/rtps/message_receiver.rs MessageReceiver keep=available_readers,acknack_sender,spdp_liveness_sender,security_plugins,own_guid_prefix,source_guid_prefix,dest_guid_prefix,submessage_count,secure_receiver_state,must_be_rtps_protection_special_case opaque=available_readers:ReaderMap;acknack_sender:AckNackSender;spdp_liveness_sender:LivenessSender
+@@extract struct src/rtps/message_receiver.rs SecureWrapping
+impl Clone for SecureWrapping { #[verifier::external_body] fn clone(&self) -> (r: SecureWrapping) ensures r == *self { unimplemented!() } }
+#[verifier::external_body] pub struct Locator { p: u8 }
+#[verifier::external_body] pub struct Timestamp { p: u8 }
+@@extract struct src/rtps/message_receiver.rs MessageReceiver opaque=available_readers:ReaderMap;acknack_sender:AckNackSender;spdp_liveness_sender:LivenessSender
 
 impl MessageReceiver {
     // "addressed to such an endpoint": the destination prefix is ours (or the unknown prefix)
@@ -82,7 +90,22 @@ impl MessageReceiver {
     pub open spec fn rtps_gate_writer(&self, id: EntityId) -> bool {
         self.must_be_rtps_protection_special_case ==> exempt_writer(id)
     }
-    // everything except the reader map (frame of the submessage handlers)
+    // the RTPS-level flag may be false only for a reason the statement accepts: no security plugins,
+    // the governance does not require RTPS protection for this participant, or the message is
+    // the output of a successful decode_rtps_message
+    pub open spec fn flag_justified(&self, m: Message) -> bool {
+        !self.must_be_rtps_protection_special_case ==> (
+            self.security_plugins is None
+            || self.security_plugins.unwrap().sp().rtps_not_protected@.contains(self.own_guid_prefix)
+            || crypto_plain_message(m))
+    }
+    // the part of the receiver the gates depend on and no submessage handler may change
+    pub open spec fn gate_fixed_eq(&self, o: &MessageReceiver) -> bool {
+        &&& self.own_guid_prefix == o.own_guid_prefix
+        &&& self.security_plugins == o.security_plugins
+        &&& self.must_be_rtps_protection_special_case == o.must_be_rtps_protection_special_case
+    }
+    // everything the gates read (frame of the entity submessage handlers: only the reader map changes)
     pub open spec fn frame_eq(&self, o: &MessageReceiver) -> bool {
         &&& self.own_guid_prefix == o.own_guid_prefix
         &&& self.source_guid_prefix == o.source_guid_prefix
